@@ -526,3 +526,55 @@ func derefPtr(t types.Type) types.Type {
 	}
 	return t
 }
+
+// lenZeroEdge: cond compares len(v) with a constant such that one edge of the branch means "v is
+// empty": len == 0, len <= 0, len < 1 (true edge), len != 0, len > 0, len >= 1 (false edge), in either
+// operand order. Returns v and the index of the "empty" edge.
+func lenZeroEdge(cond ssa.Value) (v ssa.Value, edge int, ok bool) {
+	neg := false
+	for {
+		u, isU := cond.(*ssa.UnOp)
+		if !isU || u.Op != token.NOT {
+			break
+		}
+		neg, cond = !neg, u.X
+	}
+	bo, isB := cond.(*ssa.BinOp)
+	if !isB {
+		return nil, 0, false
+	}
+	x, y, op := bo.X, bo.Y, bo.Op
+	if _, isK := constInt(x); isK {
+		// constant on the left: mirror
+		x, y = y, x
+		switch op {
+		case token.LSS:
+			op = token.GTR
+		case token.GTR:
+			op = token.LSS
+		case token.LEQ:
+			op = token.GEQ
+		case token.GEQ:
+			op = token.LEQ
+		}
+	}
+	c, isC := stripConv(x).(*ssa.Call)
+	k, isK := constInt(y)
+	if !isC || !isK || !isBuiltinCall(c.Common(), "len") || len(c.Call.Args) != 1 {
+		return nil, 0, false
+	}
+	e := -1
+	switch {
+	case (op == token.EQL || op == token.LEQ) && k == 0, op == token.LSS && k == 1:
+		e = 0
+	case (op == token.NEQ || op == token.GTR) && k == 0, op == token.GEQ && k == 1:
+		e = 1
+	}
+	if e < 0 {
+		return nil, 0, false
+	}
+	if neg {
+		e = 1 - e
+	}
+	return c.Call.Args[0], e, true
+}
